@@ -178,6 +178,7 @@ pub struct Built {
     pub snapshot: Vec<Option<Core>>,
     pub debug_text: Option<Result<String, String>>,
     pub debug_text_pretty: Option<Result<String, String>>,
+    pub debug_text_specs: Vec<(&'static str, Result<String, String>)>,
     pub early_prints: Vec<(usize, Result<String, String>)>,
     /// how many times `Dispatcher::setup` was called (1 + lifecycle `Setup` ops)
     pub expected_setups: u64,
@@ -412,6 +413,22 @@ pub fn build(sc: &Scenario, opts: &BuildOpts) -> Built {
     } else {
         None
     };
+    // the caller's format spec (width, precision, fill, sign, zero padding - e.g. when the builder
+    // is a field of a struct printed with `{:.3?}`) must not change the plan that is printed
+    let mut debug_text_specs: Vec<(&'static str, Result<String, String>)> = Vec::new();
+    if opts.capture_debug {
+        macro_rules! spec {
+            ($f:literal) => {
+                let r = std::panic::catch_unwind(std::panic::AssertUnwindSafe(|| format!($f, b)));
+                debug_text_specs.push(($f, r.map_err(|p| crate::util::payload_string(&p))));
+            };
+        }
+        spec!("{:.3?}");
+        spec!("{:24?}");
+        spec!("{:#.1?}");
+        spec!("{:*<9?}");
+        spec!("{:+08.2?}");
+    }
     let mut disp = b.build();
     let mut expected_setups = 0;
     let mut setup_problems = Vec::new();
@@ -467,6 +484,7 @@ pub fn build(sc: &Scenario, opts: &BuildOpts) -> Built {
         snapshot,
         debug_text,
         debug_text_pretty,
+        debug_text_specs,
         early_prints,
         expected_setups,
         setup_problems,
